@@ -1,10 +1,10 @@
 """A tiny real program launched by the C19 check through JADE's real launch path.
 
-usage: probe.py [--exit=N] [--signal=N] [--out-text=T] [--err-text=T] [anything ...]
+usage: probe.py [--key=K] [--exit=N] [--signal=N] [--out-text=T] [--err-text=T] [anything ...]
 
 It writes what it really received (argv, selected environment variables, cwd, pid) as JSON to
-$C19_PROBE_FILE if set, else to $C19_PROBE_DIR/<sha1 of $JADE_JOB_NAME>.json (the job name itself
-is not trusted as a file name), prints one marker line to stdout and one to stderr, and exits with
+$C19_PROBE_FILE if set, else to $C19_PROBE_DIR/<K>.json (K from the first --key= argument; without
+one: sha1 of $JADE_JOB_NAME - neither the job name nor the environment is trusted), prints one marker line to stdout and one to stderr, and exits with
 the requested code (or kills itself with the requested signal).  Standard library only; never
 imports jade.
 """
@@ -22,8 +22,11 @@ def main():
     sig = None
     out_text = None
     err_text = None
+    key = None
     for a in argv:
-        if a.startswith("--exit="):
+        if a.startswith("--key=") and key is None:
+            key = "".join(ch for ch in a[len("--key="):] if ch.isalnum())[:40] or None
+        elif a.startswith("--exit="):
             try:
                 code = int(a[len("--exit="):])
             except ValueError:
@@ -48,7 +51,8 @@ def main():
     path = os.environ.get("C19_PROBE_FILE")
     if not path:
         d = os.environ.get("C19_PROBE_DIR", ".")
-        key = hashlib.sha1(("" if name is None else name).encode("utf-8", "surrogateescape")).hexdigest()
+        if key is None:
+            key = hashlib.sha1(("" if name is None else name).encode("utf-8", "surrogateescape")).hexdigest()
         path = os.path.join(d, key + ".json")
     tmp = path + ".tmp%d" % os.getpid()
     with open(tmp, "w") as f:
